@@ -186,7 +186,9 @@ class Plugin:
 def _observe_worker(args):
     modname, clsname, cases = args
     import importlib
+    import logging
 
+    logging.disable(logging.CRITICAL)
     sys.path.insert(0, REPO_SRC)
     mod = importlib.import_module(modname)
     plug = getattr(mod, clsname)()
@@ -252,6 +254,9 @@ def excl_ok(res):
 
 
 def evaluate_one(plug: Plugin, live: driver.Live, case):
+    import logging
+
+    logging.disable(logging.CRITICAL)
     try:
         c2, o = plug.observe(case)
     except Exception:
